@@ -652,39 +652,39 @@ def run(prog, rep):
                 return T in names
         return None
 
-    key_writes = [a for a in ast.walk(s2d) if isinstance(a, ast.Assign) and isinstance(a.targets[0], ast.Subscript) and
-                  isinstance(a.targets[0].value, ast.Name) and a.targets[0].value.id == dvar and isinstance(a.targets[0].slice, ast.Constant)]
-    for a in key_writes:
-        _, conds_ = _enclosing(a, s2d)
-        tnames = [T for T in all_types if all(_type_truth(canon(c_), T) is not False for c_ in conds_) and
-                  any(_type_truth(canon(c_), T) is True for c_ in conds_)]
-        if not tnames:
-            continue
-        if True:
-            n = s2d
-            keys = set()
-            if True:
-                if True:
-                    if True:
-                        keys.add(a.targets[0].slice.value)
-                        # children must be converted recursively: every element put under the key is sliver_to_dict(child)
-                        v = a.value
-                        elts = []
-                        cb = comp_builder('_', v)
-                        if cb is not None:
-                            elts.append(cb.elt)
-                        elif isinstance(v, ast.Name):
-                            elts.extend(b.elt for b in blds.get(v.id, []) if any(x is b.node for x in ast.walk(n)))
-                        for inner in elts:
-                            rec = isinstance(inner, ast.Call) and call_name(inner) == 'sliver_to_dict'
-                            rep.instance('R6', f'sliver_to_dict[{",".join(tnames)}]: child under {a.targets[0].slice.value!r} converted by {norm(inner, 70)}')
-                            if not rec:
-                                rep.violation('R6', loc(mod, inner), 'ABCPropertyGraph.sliver_to_dict',
-                                              f'{",".join(tnames)}: child appended as {norm(inner, 70)}',
-                                              'children of a sliver must be converted with sliver_to_dict (recursively); '
-                                              'a flat property dict drops their own children')
-            for t in tnames:
-                written.setdefault(t, set()).update(keys)
+    # the converter is evaluated once per sliver class ("the argument is exactly a T"): table lookups, if-chains and loops over
+    # constant rows are all resolved by the partial evaluator, what is left are the key writes of that class
+    from ..normalize import specialize
+    type_keys = [k for k in all_types]
+    for cname_, tbl in list(apg.assigns.items()):
+        if isinstance(tbl, ast.Dict):
+            type_keys += [k.id for k in tbl.keys if isinstance(k, ast.Name) and k.id.endswith('Sliver')]
+    for T in sorted(set(type_keys)):
+        g = specialize(prog, apg, s2d, {'type(sliver)': ast.Name(id=T, ctx=ast.Load())})
+        if any(isinstance(x, ast.Raise) for x in g.body):
+            continue        # not a convertible class
+        blds_g = builders(g)
+        keys = set()
+        for a in ast.walk(g):
+            if isinstance(a, ast.Assign) and isinstance(a.targets[0], ast.Subscript) and isinstance(a.targets[0].value, ast.Name) and \
+                    a.targets[0].value.id == dvar and isinstance(a.targets[0].slice, ast.Constant):
+                keys.add(a.targets[0].slice.value)
+                v = a.value
+                elts = []
+                cb = comp_builder('_', v)
+                if cb is not None:
+                    elts.append(cb.elt)
+                elif isinstance(v, ast.Name):
+                    elts.extend(b.elt for b in blds_g.get(v.id, []))
+                for inner in elts:
+                    rec = isinstance(inner, ast.Call) and call_name(inner) == 'sliver_to_dict'
+                    rep.instance('R6', f'sliver_to_dict[{T}]: child under {a.targets[0].slice.value!r} converted by {norm(inner, 70)}')
+                    if not rec:
+                        rep.violation('R6', loc(mod, inner), 'ABCPropertyGraph.sliver_to_dict',
+                                      f'{T}: child appended as {norm(inner, 70)}',
+                                      'children of a sliver must be converted with sliver_to_dict (recursively); '
+                                      'a flat property dict drops their own children')
+        written.setdefault(T, set()).update(keys)
     readers = {
         'NodeSliver': 'build_deep_node_sliver_from_dict', 'NetworkServiceSliver': 'build_deep_ns_sliver_from_dict',
         'ComponentSliver': 'build_deep_component_sliver_from_dict',
